@@ -5,7 +5,9 @@
    [sb] of one section / [fb] of one file, followed by ANY further bytes: the parser returns a node
    holding exactly those bytes (and the erase polarity 0xFF unchanged), and assembling that node
    returns exactly those bytes again (assembler state unchanged).  The theorems below establish
-   these predicates for every production of the grammar, with no bound on sizes or counts. *)
+   these predicates for every production of the grammar, with no bound on sizes or counts.
+   [vol_ok vb] says the same for a whole volume (parse at polarity unset or 0xFF, assemble with any
+   incoming FFS3 flag). *)
 From Fiano Require Import Base.Bytes Model.Ffs Model.FfsSpec Proofs.FfsSaveProofs.
 Open Scope Z_scope.
 
@@ -69,6 +71,28 @@ Theorem C01_file_sections : forall g t attr state secs,
   file_ok dec enc u2s s2u nvar (file_bytes g t attr state (sections_bytes secs)).
 Proof. exact (file_ok_sections dec enc u2s s2u nvar). Qed.
 
+(* a firmware volume (one block-map entry, no extended header; FFSv2 or FFSv3; erase polarity 1):
+   any list of files that are themselves ok, each at the next 8-byte boundary and meeting the
+   data alignment its attribute bits ask for (so pad files appear in the list as ordinary files),
+   followed by any amount of erased free space — including 0..31 bytes and a header-only file in the
+   last 24 bytes, the two cases the pinned code got wrong.  Holds for the volume followed by any
+   bytes, at either initial polarity, resizable or not. *)
+Theorem C01_volume : forall zero g attrs reserved rev count bsize files free,
+  zlen zero = 16 -> bytes_ok zero = true -> (g = FFS2 \/ g = FFS3) ->
+  0 <= attrs < 2 ^ 32 -> Z.land attrs 2048 <> 0 ->
+  0 <= reserved < 256 -> 0 <= rev < 256 ->
+  0 <= count < 2 ^ 32 -> 0 <= bsize < 2 ^ 32 -> (count =? 0) && (bsize =? 0) = false ->
+  Forall (file_ok dec enc u2s s2u nvar) files -> files_aligned 72 files = true -> 0 <= free ->
+  72 + zlen (flay files) + free < 2 ^ 64 ->
+  vol_ok dec enc u2s s2u nvar (vol_bytes zero g attrs reserved rev count bsize files free).
+Proof. exact (vol_ok_files dec enc u2s s2u nvar). Qed.
+
+(* nesting: a firmware-volume-image section around any ok volume is an ok section, so the rules
+   above compose to any depth (volume -> file -> FV-image section -> volume -> ...) *)
+Theorem C01_section_fv_image : forall vb, vol_ok dec enc u2s s2u nvar vb -> 4 + zlen vb < 16777215 ->
+  sec_ok dec enc u2s s2u nvar (sec_bytes 23 vb).
+Proof. exact (sec_ok_fv dec enc u2s s2u nvar). Qed.
+
 End C01.
 
 Print Assumptions C01_section_leaf.
@@ -78,6 +102,8 @@ Print Assumptions C01_section_version.
 Print Assumptions C01_section_depex.
 Print Assumptions C01_file_opaque.
 Print Assumptions C01_file_sections.
+Print Assumptions C01_volume.
+Print Assumptions C01_section_fv_image.
 
 (* ---- non-vacuity: a concrete driver file with four sections satisfies the hypotheses, and the
    model really parses and re-assembles it to the same bytes ---- *)
